@@ -267,6 +267,22 @@ def gen_plan(rng, family):
             other.append(rng.choice([["resize", 1], ["resize", rng.choice([1, 2, 3, 4])], ["get", plan["workers"], 20, "auto", False]]))
         plan["threads"].append(other)
         plan["final"] = "await"
+    elif family == "growshrink":                # C10: a pool created small, grown, then shrunk while its idle workers may be leaving
+        plan["reusable"] = True
+        plan["workers"] = 1
+        plan["timeout"] = rng.choice([0.05, 0.05, 10])
+        plan["kill_budget"] = 0
+        big = rng.choice([6, 7, 8])
+        seq = [["submit", "value"], ["resize", big]]
+        for _ in range(rng.randint(1, 3)):
+            seq.append(["submit", rng.choice(["value", "value", "long"])])
+        seq.append(["await_all"])
+        if rng.random() < 0.6:
+            seq.append(["pause"])               # the idle workers may all time out here
+        seq.append(["resize", rng.choice([1, 1, 2])])
+        seq.append(["submit", "value"])
+        plan["threads"] = [seq]
+        plan["final"] = "await+shutdown"
     elif family == "saturate":                  # C08 delivered
         plan["workers"] = rng.choice([1, 2, 3])
         plan["timeout"] = rng.choice([None, 0.05, 0.05])
@@ -720,7 +736,7 @@ def analyze(plan, r):
         hang_props.append("C05")
     if fam in ("timeout",) or (plan["timeout"] and not kills):
         hang_props.append("C07")
-    if fam in ("resize", "idleshrink", "cbreuse"):
+    if fam in ("resize", "idleshrink", "cbreuse", "growshrink"):
         hang_props += ["C10", "C09"]
     if fam == "reuse":
         hang_props += ["C09"]
